@@ -43,6 +43,7 @@ def h_names(m, ctx, n, with_dir=False):
     wo = specnames.output_name(ctx, path)
     if (r.idx == 0) != (wo is not None):
         violation(ctx, 'remove_txtpp accepts/rejects differently from the naming rules', data)
+    ctx.notes['native_check'] = {'kind': 'line', 'request': nc_tokens('is_txtpp_file', path), 'expect': nc_tokens('true' if bool(is_t) else 'false')}
     if wo is not None:
         ctx.cover('txtpp_name')
         check_bytes_equal(ctx, r.f[0].b, wo, 'output name differs from the naming rules', data)
@@ -237,6 +238,7 @@ def _out_name(n):
 
 
 H = 'props.c11'
+validate_samples = validate_line_samples
 
 
 def jobs(tier):
